@@ -11,9 +11,15 @@ TP_NOTE = ("trusted: gcc ASan/UBSan/LSan/TSan runtimes, the kernel's pipe/epoll 
            "relaxed atomics only so it adds no happens-before edges); interleavings and fault positions outside the sampled/enumerated set are unexamined")
 
 CHECKS = {
+    "C04": ("exploration", "runtime monitoring: real hash code in every compiled transform variant (portable/SSE/SHA-NI/AVX/small tables, gcc+clang, -O0/-O2/-O3, ASan+UBSan, MSan) driven over exhaustive lengths, chunkings and alignments in exact-size buffers; hashlib and an independent Python Streebog decide; context non-interference monitor for zeroisation",
+            "Held on the cases explored: every length 0..4 blocks with one-shot, byte-wise, all 2-way and random k-way splits incl. empty updates, all 64 source alignments at padding-adjacent lengths, 64 KiB and 1 MiB+1 messages, bit-counter state injection near 2^29/2^32/2^61/2^64 (and 2^124 for SHA-512), every compiled-in transform forced through the dispatch flags; digests, reported sizes and hex text of the three entry points compared with hashlib / Python Streebog (validated on RFC 6986/7836); after final the context image must not depend on the message.",
+            "trusted: Python hashlib; oracles/streebog.py and oracles/mdhash.py (self-tested against RFC vectors / hashlib in setup); variants that do not compile are recorded not_selectable; only gcc 12 and clang 14", "DESIGN.md 4 C04"),
     "C05": ("exploration", "runtime monitoring: real pool under ASan+UBSan+LSan and TSan, offline exactly-once/FIFO/affinity checker over a client-boundary event log, injected queue write/read faults, seeded schedule perturbation",
             "Held on the executions explored: hundreds of seeded scenarios (pool sizes 1-16, external/pool/self senders, all 8 flag combinations, never-started and STARTING destinations, shared virtual thread, pipe-full EAGAIN, injected EAGAIN/EPIPE/EBADF at the first 64 queue writes and sampled later ones, EINTR/EAGAIN on queue reads) with every message carrying a unique id and every history checked offline; exploration because schedules are sampled, not enumerated.",
             TP_NOTE, "DESIGN.md 4 C05"),
+    "C07": ("exploration", "runtime monitoring: HMAC entry points (streaming, one-shot, digest, hex) in the C04 build variants under ASan+UBSan/MSan; hmac.new / RFC 2104 over the Python Streebog decide; key block freed after init (use-after-free monitor) and context non-interference monitor for pad wiping",
+            "Held on the cases explored: all eight hash variants, key lengths 0..3 blocks (every length in thorough; every boundary and every 5th otherwise in quick), messages/chunkings from the C04 generator, context reuse with a second key; MAC, sizes and entry-point agreement checked against the reference; after final the HMAC context (incl. k_opad) must be identical for twin keys/messages.",
+            "trusted: Python hashlib/hmac and oracles/streebog.py (RFC 7836 HMAC vectors in setup)", "DESIGN.md 4 C07"),
     "C10": ("exploration", "runtime monitoring: broadcast harness under ASan (stack-use-after-return on)+LSan and TSan; offline checker over callback intervals, call/return and completion records; send-failure positions enumerated",
             "Held on the executions explored: every flag subset of bsend_ex/cbsend x caller kind (external, pool thread, thread of a second pool) x pool sizes 1-16, never-started thread subsets, back-to-back synchronous broadcasts from one stack frame, send failure at each position 1..threads+1, perturbation at the decrement and hand-over points; counts, exactly-once, sync completion, completion-callback affinity and one-by-one non-overlap are checked on every history.",
             TP_NOTE, "DESIGN.md 4 C10"),
@@ -30,6 +36,15 @@ CHECKS = {
             "Held on the cases explored: DNS build sequences compared byte-for-byte with a reference encoder, validated and parsed back; name/label round trips with buffer sizes swept around the need; RADIUS build/sign/verify against reference authenticators, password hiding at every 16-octet edge 0..128, wrong secrets and single-octet corruptions of signed packets (all octets x 3 masks in thorough) judged by what RFC processing must detect.",
             "trusted: Python hashlib/hmac, the reference encoders (self-tested on RFC 2865 7.1 packets and RFC 2202 vectors in setup); names outside 1..253 octets and attributes whose semantics the library does not document are recorded but not judged",
             "DESIGN.md 4 C15"),
+    "C17": ("exploration", "runtime monitoring: per-operation histories on the real INI store under ASan+UBSan (exact-size and canary-guarded generation buffers), every observation compared with an ordered-map reference model",
+            "Held on the histories explored: thousands of seeded histories of parse/set/set-int/get (case-sensitive and insensitive)/enum/calc-size/generate over small alphabets of names differing only in case, values growing and shrinking across the allocation padding, every output buffer size 0..size+1; after every operation lookups, enumeration order, size calculation, generated text and parse(gen(store)) must agree with the model, and generation into a smaller buffer must fail without writing past it.",
+            "trusted: oracles/inimodel.py (self-tested in setup); canonical histories only (no repeated section headers/keys inside parsed text, no CR/LF/= in names)", "DESIGN.md 4 C17"),
+    "C18": ("exploration", "runtime monitoring: socket-address formatting/parsing and prefix arithmetic under ASan+UBSan in exact-size buffers, compared with socket.inet_ntop/ipaddress and integer arithmetic",
+            "Held on the cases explored: IPv4 boundaries + 10^5 random, IPv6 of every zero-run shape, v4-mapped and random, boundary ports (all 65536 in thorough), every prefix length 0..32/0..128, every output size 0..needed+1, UNIX paths, and grammar-generated plus mutated text for the parsers; text must be the conventional form and round-trip, reported length = strlen, mask/length conversions inverse, membership/truncation equal integer arithmetic, clearly malformed ports/prefix lengths rejected.",
+            "trusted: Python socket/ipaddress; spellings the documentation leaves open (unbalanced brackets, bracketed IPv4, empty port, leading zeros, scope ids) are counted but not judged", "DESIGN.md 4 C18"),
+    "C19": ("exploration", "runtime monitoring: writer/reader histories on the real packet ring (mmap storage) with every block stamped (sequence, offset); explicit range monitor on every iovec; byte-stream reference model decides; ASan+UBSan, valgrind memcheck in thorough",
+            "Held on the histories explored: ring sizes 4 blocks..1 MiB, min block 1..1500, 1-8 readers advancing by arbitrary amounts, equal and varying block sizes, leading offsets, forced wraps, readers kept one/two rounds behind, round counter preset near SIZE_MAX; no silent gap, no repetition, bytes identical, drop reports account for skipped data, resynchronisation within two ring rounds (bounded progress), avail-size equals a full read, reported size equals bytes in the iovecs, every region inside the ring.",
+            "trusted: oracles/ringmodel.py (self-tested in setup); the iovec table lives inside the mapping so only explicit range checks see overruns there", "DESIGN.md 4 C19"),
     "C20": ("exploration", "runtime monitoring: grammar-generated requests/status lines/header blocks (generator keeps its own AST) run through the real parser under ASan+UBSan; returned spans, header lookups, counts and http_req_sec_chk verdicts compared with the AST and an independent pattern scanner",
             "Held on the cases explored: RFC 7230/3986 grammar-generated request and status lines (all target forms, methods, paths, queries), header sets with arbitrary case/folding/duplicates, and every single edit introducing one of the seven smuggling patterns (1.5M control-octet edits in thorough); spans must be the AST's sub-spans (path up to the documented slash trimming).",
             "trusted: the generator/AST and pattern scanner (self-tested in setup); obs-text > 126 and method tokens not starting with A-Z are documented library restrictions and not judged",
